@@ -16,15 +16,17 @@ import random
 from .. import ashref as R
 from ..ashharness import new_protocol, decode_writes
 from ..runner import Acc
-from .. import vloop
+from .. import vloop, logmode
 
 PROPERTY = "C03"
 LEVEL = "exploration"
 RULE = (
     "Cases are (frame class, control-field values, payload length, payload pattern) tuples, "
     "enumerated exhaustively for control fields / reset codes / control bytes and over every "
-    "payload length up to the tier bound with 4 patterns (zeros, seeded random, reserved "
-    "bytes only, the randomisation sequence itself); corruption cases are (frame, bit "
+    "payload length up to the tier bound with 5 patterns (zeros, seeded random, reserved "
+    "bytes only, the randomisation sequence itself, and a payload whose randomised image walks "
+    "through every ordered pair of reserved / reserved^0x20 bytes), each also fed through the "
+    "running receiver as the reference's wire image; corruption cases are (frame, bit "
     "positions) pairs.  Each case is distinct by construction; a case counts as non-trivial "
     "when it was both encoded and parsed (or, for corruptions, rejected) against the "
     "reference; the number reported is the number of distinct signatures."
@@ -48,6 +50,7 @@ REACH = {
         "stuffed_0x7e", "stuffed_0x7d", "stuffed_0x11", "stuffed_0x13", "stuffed_0x18",
         "stuffed_0x1a", "flip1_rejected", "flip2_rejected", "classify_256",
         "wire_DATA", "wire_DATA_retx", "wire_ACK", "wire_NAK", "wire_RST", "flip_e2e_nak",
+        "recv_e2e", "recv_escaped", "recv_esc_then_stuffed_lookalike", "wire_with_debug_logging",
     ]
     for t in ("quick", "thorough")
 }
@@ -64,7 +67,19 @@ def pattern(kind: int, n: int, seed: int) -> bytes:
     if kind == 2:
         rs = R.RESERVED
         return bytes(rs[(i + seed) % len(rs)] for i in range(n))
+    if kind == 4:
+        # the *randomised* data field (what is stuffed and put on the wire) walks through every
+        # ordered pair over {reserved bytes} U {reserved ^ 0x20}: ESC followed by 0x31, 0x5D
+        # followed by 0x7E, ... - the adjacencies on which a stuffing / unstuffing shortcut trips
+        img = _ADJ[(seed * 7) % len(_ADJ):] + _ADJ
+        seq = R.lfsr(n)
+        return bytes(img[i] ^ seq[i] for i in range(n))
     return R.lfsr(n)
+
+
+_A = sorted(set(R.RESERVED) | {b ^ 0x20 for b in R.RESERVED})
+_ADJ = bytes(x for a in _A for b in _A for x in (a, b))
+NPAT = 5
 
 
 def shards(tier, seed):
@@ -91,11 +106,15 @@ def shards(tier, seed):
         out.append({"part": "e", "grp": "acknak", "seed": seed})
         for i in range(0, 256, 32):
             out.append({"part": "e", "grp": "rst", "codes": list(range(i, i + 32)), "seed": seed})
-    # running host
+    # stuffing helpers
+    for lo in range(0, 65536, 8192):
+        out.append({"part": "s", "lo": lo, "hi": lo + 8192, "seed": seed})
+    # running host, with logging off and with DEBUG logging on (a log statement is code too)
     lens = list(range(0, maxlen + 1))
     n = 4 if tier == "quick" else 12
     for i in range(n):
-        out.append({"part": "g", "lens": lens[i::n], "seed": seed})
+        out.append({"part": "g", "lens": lens[i::n], "seed": seed, "debuglog": False})
+        out.append({"part": "g", "lens": lens[(i + 1) % n::n], "seed": seed + 1, "debuglog": True})
     return out
 
 
@@ -142,18 +161,97 @@ def check_data(acc: Acc, ash, frm, retx, ack, payload, patk):
     acc.nontrivial(("DATA", frm, retx, ack, len(payload), patk))
 
 
+def check_receive(acc: Acc, retx, ack, payload, patk):
+    """Decode direction through the running receiver: the reference's wire image of a DATA frame
+    (stuffed, flag-terminated) must come out of data_received() as exactly that payload."""
+    acc.case()
+    case = {"part": "h", "retx": retx, "ack": ack, "payload": payload.hex()}
+    wire = R.encode_data(0, retx, ack, payload)
+    proto, up, tr, log = new_protocol()
+    try:
+        proto.data_received(wire)
+    except Exception as e:  # noqa: BLE001
+        acc.violation("C03/receive/raises", f"data_received raised {e!r} on the valid frame {wire.hex()}", case)
+        return
+    ups = [e for e in log if e[0].startswith("up_")]
+    wrs = [e[1] for e in log if e[0] == "wr"]
+    if ups != [("up_data", payload)]:
+        acc.violation("C03/receive/payload-differs",
+                      f"wire {wire.hex()} (payload {payload.hex()}) was handed up as {[(u[0], u[1].hex() if len(u) > 1 and isinstance(u[1], bytes) else u[1:]) for u in ups]}", case)
+    elif wrs != [R.encode_ack(1)]:
+        acc.violation("C03/receive/ack-differs", f"answer to a valid DATA frame was {[w.hex() for w in wrs]}, want {R.encode_ack(1).hex()}", case)
+    else:
+        acc.hit("recv_e2e")
+        body = wire[:-1]
+        for i, b in enumerate(body[:-1]):
+            if b == R.ESC:
+                acc.hit("recv_escaped")
+                if i + 2 < len(body) and body[i + 1] == 0x5D and (body[i + 2] ^ 0x20) in R.RESERVED:
+                    acc.hit("recv_esc_then_stuffed_lookalike")
+
+
+def part_s(desc) -> Acc:
+    """Stuffing helpers against the reference on adjacency-rich strings (only if the tree still
+    exposes them as static helpers; the end-to-end parts do not depend on that)."""
+    import bellows.ash as ash
+
+    acc = Acc()
+    cls = ash.AshProtocol
+    stuff = getattr(cls, "_stuff_bytes", None)
+    unstuff = getattr(cls, "_unstuff_bytes", None)
+    if stuff is None or unstuff is None:
+        acc.notes.append("AshProtocol._stuff_bytes/_unstuff_bytes not present: helper differential skipped")
+        return acc
+
+    def one(x: bytes):
+        acc.case()
+        case = {"part": "s", "x": x.hex()}
+        want = R.stuff(x)
+        try:
+            got = bytes(stuff(x))
+        except Exception as e:  # noqa: BLE001
+            acc.violation("C03/stuff/raises", f"stuffing {x.hex()} raised {e!r}", case)
+            return
+        if got != want:
+            acc.violation("C03/stuff/differs", f"stuffing {x.hex()} gave {got.hex()}, reference {want.hex()}", case)
+        try:
+            back = bytes(unstuff(want))
+        except Exception as e:  # noqa: BLE001
+            acc.violation("C03/unstuff/raises", f"unstuffing {want.hex()} raised {e!r}", case)
+            return
+        if back != x:
+            acc.violation("C03/unstuff/not-inverse", f"unstuff(stuff({x.hex()})) = {back.hex()} (wire {want.hex()})", case)
+        else:
+            acc.hit("helper_roundtrip")
+
+    lo, hi = desc["lo"], desc["hi"]
+    for v in range(lo, hi):
+        one(bytes([v >> 8, v & 0xFF]))
+    if lo == 0:
+        for n in (1, 3, 4):
+            for tup in itertools.product(_A, repeat=n):
+                one(bytes(tup))
+        acc.nontrivial(("helpers", "alphabet", len(_A)))
+    acc.nontrivial(("helpers", lo, hi))
+    acc.sample({"stuffing_helpers": "all 2-byte strings %04x..%04x" % (lo, hi - 1),
+                "example": [bytes([0x7D, 0x31]).hex(), R.stuff(bytes([0x7D, 0x31])).hex()]})
+    return acc
+
+
 def part_a(desc) -> Acc:
     import bellows.ash as ash
 
     acc = Acc()
     seed = desc["seed"]
     for L in range(desc["lo"], desc["hi"] + 1):
-        for patk in range(4):
+        for patk in range(NPAT):
             payload = pattern(patk, L, seed)
             for frm in range(8):
                 for retx in (0, 1):
                     for ack in range(8):
                         check_data(acc, ash, frm, retx, ack, payload, patk)
+            for retx in (0, 1):
+                check_receive(acc, retx, (L + patk) % 8, payload, patk)
             acc.sample({"class": "DATA", "len": L, "pattern": patk,
                         "ref_wire_frm3_retx1_ack5": R.encode_data(3, 1, 5, payload).hex()[:80]}, limit=2)
     return acc
@@ -341,7 +439,7 @@ def part_g(desc) -> Acc:
         host_tx = 0
         rnd = random.Random(seed)
         for L in desc["lens"]:
-            for pk in range(4):
+            for pk in range(NPAT):
                 payload = pattern(pk, L, seed)
                 # move the host's ackNum: send it k DATA frames
                 for _ in range(rnd.randrange(0, 3)):
@@ -409,6 +507,12 @@ def part_g(desc) -> Acc:
 
 def run_shard(desc) -> Acc:
     part = desc["part"]
+    if logmode.apply(desc) and part == "g":
+        acc = part_g(desc)
+        acc.hit("wire_with_debug_logging")
+        return acc
+    if part == "s":
+        return part_s(desc)
     if part == "a":
         return part_a(desc)
     if part == "bc":
@@ -437,6 +541,10 @@ def replay(case) -> Acc:
             acc.violation("C03/corruption/accepted-by-parse_frame", f"{bytes(b).hex()} parsed as {fr!r}", case)
         except Exception as e:  # noqa: BLE001
             print("rejected with", repr(e))
+    elif p == "h":
+        check_receive(acc, case["retx"], case["ack"], bytes.fromhex(case["payload"]), -1)
+    elif p == "s":
+        return part_s({"lo": int(case["x"], 16) if len(case["x"]) == 4 else 0, "hi": (int(case["x"], 16) if len(case["x"]) == 4 else 0) + 1})
     elif p in ("b", "c", "f"):
         return part_bc({"seed": 0})
     elif p == "g":
